@@ -151,6 +151,19 @@ def ctxByUser (ctx : List Tuple) (u r ot : String) : List Tuple :=
   (ctx.filter (fun t => t.user = u && t.rel = r && typeOf t.obj = ot)).foldl
     (fun acc t => insertSortedBy (·.obj) t acc) []
 
+/-- the contextual part of `specificTypeWildcard` (internal/check/check.go): the bucket
+`ctxTuplesByObjectID[(object, relation, userType)]` is walked from the start until the first typed wildcard
+(`for _, ct := range ctxTuples { if tuple.IsTypedWildcard(ct.GetUser()) { …; break } }`); `none` = fall through
+to the datastore's `ReadUsersetTuples(type:*)`.  The bucket is sorted by user and `type:*` does NOT sort
+first: ids may start with `!`, `"`, `$`, `%`, `&`, `'`, `(`, `)` (all accepted by pkg/tuple), which sort before `*`. -/
+def ctxWildcardLookup (bucket : List Tuple) : Option Tuple := bucket.find? (fun t => isTypedWildcard t.user)
+
+/-- the index-0 shortcut ("the wildcard can only be the first entry") — NOT what the code does -/
+def ctxWildcardHeadOnly (bucket : List Tuple) : Option Tuple :=
+  match bucket with
+  | t :: _ => if isTypedWildcard t.user then some t else none
+  | [] => none
+
 /-! ### the wrapper stack of `NewRequestStorageWrapperWithCache`
 
 bounded reader → iterator cache (`CachedDatastore`) → shared iterators → `CombinedTupleReader`.  The
@@ -182,5 +195,19 @@ def runReads {K : Type} [DecidableEq K] (rd : K → List Tuple) (sel : List Tupl
     let (v, c') := requestRead rd sel ctx c k
     let (vs, c'') := runReads rd sel c' rest
     (v :: vs, c'')
+
+/-! ### one command, several `Execute` calls
+
+`Server.BatchCheck` hands ONE `CheckQuery` to the batch command, which calls its `Execute` once per item,
+each time with that item's contextual tuples.  `perExecute = true` is the code: the request wrapper is
+built inside `Execute` from the params of that call (`Gen.ReqScope`); `false` is a wrapper built once per
+command (memoised in the struct): every call then reads through the contextual tuples of the call that
+built it. -/
+def serveCalls {K : Type} [DecidableEq K] (rd : K → List Tuple) (sel : List Tuple → K → List Tuple) (perExecute : Bool)
+    (c : IterCache K) (calls : List (List Tuple × K)) : List (List Tuple) × IterCache K :=
+  if perExecute then runReads rd sel c calls
+  else match calls with
+    | [] => ([], c)
+    | (ctx0, _) :: _ => runReads rd sel c (calls.map (fun p => (ctx0, p.2)))
 
 end OpenFGAVerif.Model.CombinedReader
